@@ -1,7 +1,7 @@
 (* Properties/C07.v -- C07: null forcing leaves the texture unchanged; unsupported regimes are rejected *)
 From Coq Require Import Reals ZArith List.
 From Coquelicot Require Import Hierarchy Derive.
-From PV Require Import Num NumR Model_core Model_minerals Proofs_core Proofs_total Proofs_minerals Proofs_rhs Inst_core Proofs_flow Proofs_path Proofs_path2 Proofs_path3.
+From PV Require Import Num NumR Model_core Model_minerals Proofs_core Proofs_total Proofs_minerals Proofs_rhs Inst_core Proofs_flow Proofs_path Proofs_path2 Proofs_path3 Proofs_path7.
 From PV.gen Require Import Gen_core.
 Import ListNotations.
 Open Scope R_scope.
@@ -115,3 +115,61 @@ Example C07_zero_velocity_gradient_nonvacuous :
   (forall (y0 : nat -> R) i t, is_derive (fun _ : R => y0 i) t
      (f 4 0 0 2 [0%Z] [1] [] 1.5 3.5 30 125 (fun _ => repeat 0 9) (fun _ => 0) t (fun j => y0 j) i)).
 Proof. exact zero_gradient_nonvacuous_proof. Qed.
+
+(* ---- zero boundary mobility under ANY flow ------------------------------------------------------------------
+   the fraction block of the integrated vector field vanishes when M* = 0: every regime, any velocity gradient,
+   any strain-rate scale, any state, any number of grains (index 9 + 9 n + g is grain g's volume fraction) *)
+Theorem C07_zero_mobility_field :
+  forall (regime ph fb : Z) (n : nat) (ass : list Z) (frs Sd : list R) (p nn lam M : R)
+         (L : list R) (s : R) (y : nat -> R) (g : nat),
+  M = 0 -> (g < n)%nat -> vf regime ph fb n ass frs Sd p nn lam M L s y (9 + 9 * n + g)%nat = 0.
+Proof. exact vf_zero_mobility. Qed.
+
+(* ... hence along ANY exact solution every volume fraction keeps its value over the whole interval *)
+Theorem C07_zero_mobility_fractions_constant :
+  forall (regime ph fb : Z) (n : nat) (ass : list Z) (frs Sd : list R) (p nn lam M : R)
+         (Lh : R -> list R) (sh : R -> R) (y : nat -> R -> R) (a b : R) (g : nat),
+  M = 0 -> a <= b -> (g < n)%nat ->
+  (forall t, a <= t <= b ->
+     is_derive (y (9 + 9 * n + g)%nat) t
+               (f regime ph fb n ass frs Sd p nn lam M Lh sh t (fun j => y j t) (9 + 9 * n + g)%nat)) ->
+  y (9 + 9 * n + g)%nat b = y (9 + 9 * n + g)%nat a.
+Proof. exact zero_mobility_fractions_constant. Qed.
+(* ---- round 5: the failure branch of the solver loop and of the bulk update (Model_minerals.solver_loop,
+   update_all; tied to the source by Inst_minerals_drv: update_loop_inst_*, update_all_inst_1_{2,3}, whose
+   generated code has a leaf `Err` for the failing step and whose translator adapter verifies that the stored
+   history is untouched on that path) ----------------------------------------------------------------------- *)
+From PV Require Import Proofs_driver.
+
+(* a failing solver step -- after any number of successful steps, whatever would have followed -- makes the
+   call raise, and the stored history is the one before the call *)
+Theorem C07_failed_solver_step_untouched : forall n chi (h : @history NumR) (pre : list (list R)) e (rest : list (res (list R))),
+  @update_steps NumR n chi h (map Ok pre ++ Err e :: rest) = (Err e, h).
+Proof. exact update_steps_failure. Qed.
+
+(* a failing mineral in a bulk update: minerals before it are updated, it and every later one are untouched *)
+Theorem C07_bulk_failure_leaves_later_minerals : forall n chi (pre : list (@history NumR * list R)) (h : @history NumR) e
+    (post_h : list (@history NumR)) (post_y : list (res (list R))) acc,
+  @update_all NumR n chi (map fst pre ++ h :: post_h) (map Ok (map snd pre) ++ Err e :: post_y) acc
+  = (Err e, map (fun m => step n chi (fst m) (Ok (snd m))) pre ++ h :: post_h).
+Proof. exact bulk_failure. Qed.
+
+(* an update whose integrator hands back the start vector unchanged (null forcing: every component of the modelled
+   vector field is zero, C07_null_regime_vector_field / C07_zero_strain_rate) returns the same F and stores the SAME
+   snapshot again -- provided no grain is below the sliding threshold chi/n (chi = 0 included) ... *)
+Theorem C07_null_update_keeps_snapshot : forall n chi (Fd : list R) (s : @snapshot NumR),
+  length Fd = 9%nat -> valid_snapshot n s -> Forall (fun f => thr chi n <= f) (sn_f s) ->
+  @update NumR n chi s (@y_start NumR Fd s) = (Fd, s).
+Proof. exact null_update_identity. Qed.
+
+(* ... and the literal clause "volume fractions unchanged" is REFUTED for the faithful model otherwise (open finding
+   C07:null-forcing:gbs-refloor): a valid snapshot with a grain below chi/n is re-floored and renormalised *)
+Theorem C07_null_update_refloor_refuted :
+  valid_snapshot 2 snap_small /\ 0 <= 0.3 /\
+  sn_f (snd (@update NumR 2 0.3 snap_small (@y_start NumR id9 snap_small))) <> sn_f snap_small.
+Proof. exact null_update_refloors. Qed.
+
+(* non-vacuity of C07_null_update_keeps_snapshot: snap_ex = two identity grains with volumes (1/4, 3/4), chi = 0.3 *)
+Example C07_null_update_nonvacuous :
+  length id9 = 9%nat /\ valid_snapshot 2 snap_ex /\ Forall (fun f => thr 0.3 2 <= f) (sn_f snap_ex).
+Proof. exact null_update_nonvacuous_proof. Qed.
